@@ -31,6 +31,8 @@ type Gen struct {
 	mutableGlobals map[string]bool
 	globalStored   map[string]bool
 	globalMaybeNil map[string]bool
+	infoOf    map[*types.Package]*types.Info
+	alias     map[string]map[string]string // fnKey -> contract name -> current name (renamed variables)
 }
 
 type locKind int
@@ -998,7 +1000,7 @@ func (t *fnTrans) nilCheck(v ssa.Value, term string, pos token.Pos, what string)
 func (t *fnTrans) mayBeNil(v ssa.Value) bool {
 	switch v := v.(type) {
 	case *ssa.Parameter:
-		return t.contract != nil && t.contract.nullable[v.Name()]
+		return t.contract != nil && t.contract.nullable[t.g.contractName(t.key, v.Name())]
 	case *ssa.FreeVar, *ssa.Global, *ssa.Alloc, *ssa.MakeClosure, *ssa.MakeMap, *ssa.MakeChan, *ssa.Function, *ssa.FieldAddr, *ssa.IndexAddr:
 		return false
 	case *ssa.UnOp:
